@@ -135,8 +135,8 @@ func (b *block) run(c *vlib.Ctx, vals []float64, desc func() map[string]any) out
 	if r.Unbalanced > 0 {
 		c.Violation(key("unbalanced-directed-edges"), fmt.Sprintf("%s values %v: %d edges not matched by their reverse, e.g. %v", b.name, vals, r.Unbalanced, r.UnbalancedEdge), rep(fmt.Sprint(r.UnbalancedEdge)))
 	}
-	if r.Repeated > 0 {
-		c.Violation(key("triangle-with-repeated-vertex"), fmt.Sprintf("%s values %v: %d triangles with two identical vertices, e.g. %v", b.name, vals, r.Repeated, r.RepeatedTri), rep(fmt.Sprint(r.RepeatedTri)))
+	if r.RepeatedExact > 0 {
+		c.Violation(key("triangle-with-repeated-vertex"), fmt.Sprintf("%s values %v: %d triangles with two identical vertices, e.g. %v", b.name, vals, r.RepeatedExact, r.RepeatedExactTri), rep(fmt.Sprint(r.RepeatedExactTri)))
 	}
 	// a solid corner of magnitude below the renderer's snapping epsilon may legitimately collapse to
 	// nothing: positive volume / non-empty output is only required when a non-tiny corner is inside
@@ -436,8 +436,8 @@ func main() {
 		if rp.Unbalanced > 0 {
 			c.Violation(rn+"|scene|unbalanced-directed-edges", fmt.Sprintf("%s n=%d %s: %d unbalanced edges e.g. %v", j.sc.name, j.n, rn, rp.Unbalanced, rp.UnbalancedEdge), desc)
 		}
-		if rp.Repeated > 0 {
-			c.Violation(rn+"|scene|triangle-with-repeated-vertex", fmt.Sprintf("%s n=%d %s: %d triangles with identical vertices e.g. %v", j.sc.name, j.n, rn, rp.Repeated, rp.RepeatedTri), desc)
+		if rp.RepeatedExact > 0 {
+			c.Violation(rn+"|scene|triangle-with-repeated-vertex", fmt.Sprintf("%s n=%d %s: %d triangles with identical vertices e.g. %v", j.sc.name, j.n, rn, rp.RepeatedExact, rp.RepeatedExactTri), desc)
 		}
 		if rp.Unbalanced == 0 && len(ts) > 0 && !(rp.Volume > 0) {
 			c.Violation(rn+"|scene|non-positive-volume", fmt.Sprintf("%s n=%d %s: volume %g", j.sc.name, j.n, rn, rp.Volume), desc)
@@ -449,6 +449,84 @@ func main() {
 	})
 	states += done
 	trans += tr
+	// ---- 5. spheres that barely clip a lattice corner: the surface passes a lattice corner of the
+	// renderer's own (discovered) lattice at -1e-5, 0, 1e-9, 1e-5 cell along the radius, for corners on the
+	// cube diagonal (where an octree cube is cut at its very corner) and next to it
+	type cjob struct {
+		n      int
+		oc     bool
+		q      v3.Vec
+		idx    [3]int
+		delta  float64
+		centre v3.Vec
+	}
+	var cjobs []cjob
+	for _, oc := range []bool{false, true} {
+		for _, n := range vlib.Pick(c, []int{5, 8, 16}, []int{5, 8, 11, 16, 32}) {
+			oc, n := oc, n
+			mk := func() render.Render3 {
+				if oc {
+					return render.NewMarchingCubesOctree(n)
+				}
+				return render.NewMarchingCubesUniform(n)
+			}
+			bb := cube(6, 6, 6)
+			l, err := lattice.Discover3(mk(), bb, 1)
+			if err != nil {
+				c.HarnessError("lattice discovery failed for the corner-clip spheres: %v", err)
+				continue
+			}
+			nx, ny, nz := l.NC()
+			ctr := l.Corner(nx/2, ny/2, nz/2)
+			for d := 1; nx/2+d < nx-1 && d <= 4; d++ {
+				for _, off := range [][3]int{{d, d, d}, {d, d, d + 1}, {d, d + 1, d}, {-d, -d, -d}, {d, -d, d}} {
+					i, j, k := nx/2+off[0], ny/2+off[1], nz/2+off[2]
+					if i < 1 || j < 1 || k < 1 || i >= nx-1 || j >= ny-1 || k >= nz-1 {
+						continue
+					}
+					q := l.Corner(i, j, k)
+					if q.Sub(ctr).Length() > 0.42*6 {
+						continue
+					}
+					for _, delta := range []float64{-1e-5, 0, 1e-9, 1e-5} {
+						cjobs = append(cjobs, cjob{n, oc, q, [3]int{i, j, k}, delta, ctr})
+					}
+				}
+			}
+		}
+	}
+	var ctr int64
+	cdone := c.ParFor(len(cjobs), func(i int) {
+		j := cjobs[i]
+		var r render.Render3 = render.NewMarchingCubesUniform(j.n)
+		rn := "uniform"
+		if j.oc {
+			r, rn = render.NewMarchingCubesOctree(j.n), "octree"
+		}
+		h := 6.0 / float64(j.n)
+		rad := j.q.Sub(j.centre).Length() + j.delta*h
+		s := boxed{sdf.Transform3D(sph(rad), sdf.Translate3d(j.centre)), cube(6, 6, 6)}
+		ts := render.ToTriangles(s, r)
+		rp := mesh.Check3(ts, 1e-6*h)
+		desc := map[string]any{"scene": "sphere clipping a lattice corner", "meshCells": j.n, "renderer": rn, "corner_index": j.idx, "corner": j.q, "corner_inside_by_cells": j.delta, "radius": rad, "centre": j.centre}
+		what := fmt.Sprintf("sphere r=%v about %v (lattice corner %v inside by %g cell) n=%d %s", rad, j.centre, j.idx, j.delta, j.n, rn)
+		if rp.Unbalanced > 0 {
+			c.Violation(rn+"|corner-clip|unbalanced-directed-edges", fmt.Sprintf("%s: %d unbalanced edges e.g. %v", what, rp.Unbalanced, rp.UnbalancedEdge), desc)
+		}
+		if rp.RepeatedExact > 0 {
+			c.Violation(rn+"|corner-clip|triangle-with-repeated-vertex", fmt.Sprintf("%s: %d triangles with identical vertices", what, rp.RepeatedExact), desc)
+		}
+		if rp.Unbalanced == 0 && !(rp.Volume > 0) {
+			c.Violation(rn+"|corner-clip|non-positive-volume", fmt.Sprintf("%s: volume %g, %d triangles", what, rp.Volume, len(ts)), desc)
+		}
+		if len(ts) > 0 {
+			atomic.AddInt64(&nontrivial, 1)
+		}
+		atomic.AddInt64(&ctr, int64(len(ts)))
+	})
+	states += cdone
+	trans += ctr
+	samples = append(samples, map[string]any{"corner_clip_spheres": len(cjobs), "offsets_in_cells": []float64{-1e-5, 0, 1e-9, 1e-5}})
 	samples = append(samples, map[string]any{"scenes": len(scenes), "resolutions": resos, "boxes": 3, "renderers": 2, "example": scenes[13].name})
 
 	c.Guard("all blocks discovered", len(blocks1) == 2 && len(blocksPair) == 6 && len(blocksBig) == 2, "")
